@@ -37,8 +37,6 @@ func runC11(c *Ctx, r *Report) {
 	c11CleanupPairs(c, r, "C11.R19")
 	c10PoliciesAs(c, r, "C11.R20", "C11.R21", "C11.R22") // a connection is retried "against available upstreams": the policy that picks them returns one whenever one is available
 	c11EveryPeerProbed(c, r, "C11.R23")
-	c10PoliciesAs(c, r, "C11.R20", "C11.R21", "C11.R22") // a connection is retried "against available upstreams": the policy that picks them returns one whenever one is available
-	c11EveryPeerProbed(c, r, "C11.R23")
 	c15R6(c, r, "C11.R14") // the health checks in effect are the configured ones: a Caddyfile option never replaces a health-check object an earlier option has filled in
 	// an upstream at its connection limit is not given another connection: every policy returns only upstreams
 	// for which available() (health AND limits) holds - the policy tables of C10 with full pool states
